@@ -1,6 +1,6 @@
 (* C07 -- interface-variable mocks dispatch each method to its own replacement and restore. *)
 From Coq Require Import List Arith Bool Lia.
-From Goom Require Import Model.IfaceMock Proofs.IfaceMockProofs.
+From Goom Require Import Model.IfaceMock Proofs.IfaceMockProofs Proofs.IfaceHistory.
 Import ListNotations.
 
 Section C07.
@@ -63,9 +63,40 @@ Print Assumptions C07_cancel_restores.
 Print Assumptions C07_gc_no_dangling.
 Print Assumptions C07_retention_kept.
 
-(* PARTIAL: the statements above are one-step theorems; 'after every step of every history the behaviour equals the
-   reference' is checked per run on every generated history (Python reference + this model in Coq), not proved by
-   induction over histories (the reachability of contexts held only in backups is not modelled transitively). *)
+(* THE WHOLE-HISTORY STATEMENT (refinement to an abstract specification). The reference machine of Proofs/IfaceHistory.v
+   knows nothing about contexts, fabricated itabs, backups, the builder cache or the collector: it keeps, per variable,
+   whether it is mocked and a table method -> latest replacement; Reset of a builder unmocks its variables; dropping a
+   builder and collections do nothing. For EVERY history of mocks through fresh handles, mocks through kept handles
+   (cancelled or not), calls, resets, dropped builders and collections at arbitrary points, over any number of
+   variables, interface shapes and builders, in which every variable is mocked through one builder (owner) and method
+   indices lie in the method set, the outcomes of all calls in the model equal those of the reference: each mocked
+   method reaches its own latest replacement whatever its position, an unmocked method of a mocked variable gives
+   'method not implements', an unmocked variable behaves as it did before the history (Reset restores it), different
+   variables are independent, and no call ever reaches a collected closure or a missing context (never OCrash). *)
+Theorem C07_history_refines : forall nmeth key_of owner nvars init0,
+  (forall v w, key_of v = key_of w -> v = w) -> (forall v c, init0 v <> WFake c) ->
+  forall ws nb ops,
+  length ws = nvars -> (forall v, v < nvars -> nth v ws WNil = init0 v) -> Forall (ok nmeth owner nvars) ops ->
+  snd (run nmeth key_of (init ws nb) ops) = ref_run owner init0 rinit ops.
+Proof. exact history_refines. Qed.
+Print Assumptions C07_history_refines.
+
+Theorem C07_never_crashes : forall nmeth owner nvars init0,
+  (forall v c, init0 v <> WFake c) -> forall ops r, Forall (ok nmeth owner nvars) ops -> ~ In OCrash (ref_run owner init0 r ops).
+Proof. exact never_crashes. Qed.
+Print Assumptions C07_never_crashes.
+
+(* the hypotheses are satisfiable: the history of C07_nonvacuous below (two variables of a 4-method interface and two
+   others, one builder, drop + collection + kept handle) is disciplined and the reference gives the same outcomes *)
+Example C07_history_nonvacuous :
+  let nm := fun v => nth v [4; 4; 1; 3] 0 in
+  let ops := [OMock 0 0 2 false; OMock 0 1 0 true; OCall 0 2; OCall 1 0; OCall 1 3; ODrop 0; OGC; OCall 0 2; OCall 1 0; OReset 0; OCall 0 2;
+              OMockKept 0 0 1; OCall 0 1; OCall 0 2; OReset 0] in
+  Forall (ok nm (fun _ => 0) 4) ops /\
+  ref_run (fun _ => 0) (fun v => nth v [WNil; WReal 2; WNil; WNil] WNil) rinit ops
+    = [ONone; ONone; ORepl 0; ORepl 1; ONotImpl; ONone; ONone; ORepl 0; ORepl 1; ONone; ONilPanic;
+       ONone; ORepl 2; ONotImpl; ONone].
+Proof. split; [repeat constructor; cbn; lia|vm_compute; reflexivity]. Qed.
 
 (* non-vacuity, and the finding F07b at the level of the model: with the OLD key (type of the variable: a1 and a2 share
    it) the second variable is routed to the first; with the variable as key both are mocked independently, survive
